@@ -207,7 +207,7 @@ fn settings(rng: &mut Rng, t: &mut TraceWriter, round: usize) -> ShowSettings {
             st.inf_128 = *rng.pick(&[0u128, 1, 10u128.pow(18), 10u128.pow(36), 10u128.pow(36) - 1, 1 << 127, (1 << 127) + 1, u128::MAX]);
         }
     }
-    t.ev(json!({"ev": "settings", "inf32": limbs(st.inf_32 as u128), "inf64": limbs(st.inf_64 as u128), "inf128": limbs(st.inf_128),
+    t.ev(json!({"ev": "reset", "inf32": limbs(st.inf_32 as u128), "inf64": limbs(st.inf_64 as u128), "inf128": limbs(st.inf_128),
                 "prec": st.float_precision, "width": st.item_width}));
     st
 }
@@ -357,7 +357,7 @@ fn out_macros(rng: &mut Rng, t: &mut TraceWriter) {
     let a = rng.range_i64(-1000, 1000);
     let b = rng.u64();
     let s = word(rng).replace(' ', "_");
-    let c = *rng.pick(&['x', 'y', '+']);
+    let c = rng.u64() as u32;
     let shape = rng.usize(6);
     let data = Rc::new(RefCell::new(Vec::new()));
     {
